@@ -28,7 +28,22 @@ func Bool(b bool) Val {
 	return N(0)
 }
 
-func (v VN) Coq(sb *strings.Builder) { fmt.Fprintf(sb, "VN %s", v.N.String()) }
+func (v VN) Coq(sb *strings.Builder) {
+	// a decimal numeral of hundreds of digits takes Coq a noticeable fraction of a second to read: large numbers
+	// are written as their big-endian bytes and converted by Corr.Val.nb
+	if v.N.BitLen() <= 128 {
+		fmt.Fprintf(sb, "VN %s", v.N.String())
+		return
+	}
+	sb.WriteString("VN (nb [")
+	for i, b := range v.N.Bytes() {
+		if i > 0 {
+			sb.WriteByte(';')
+		}
+		fmt.Fprintf(sb, "%d", b)
+	}
+	sb.WriteString("])")
+}
 func (v VB) Coq(sb *strings.Builder) {
 	// a list literal of tens of thousands of numerals takes Coq minutes to parse (and overflows its stack): long
 	// runs of the test pattern x, x%7+1, ... are written as (patb len first), literal pieces in chunks
